@@ -453,7 +453,7 @@ class BioSeq():
                     raise ValueError(f'Feature of type {index} not found')
                 index = ft
             if isinstance(index, Location):
-                index = LocationTuple([Location])
+                index = LocationTuple([index])
             elif isinstance(index, Feature):
                 index = index.locs
             if isinstance(index, LocationTuple):
